@@ -489,7 +489,8 @@ def check(prop, tier, only=None, jobs=None):
             violations.append((h, r, new, replay_path))
         else:
             inconclusive.append((h, r, f"counterexample did not replay natively ({verdict})"))
-        shutil.rmtree(scratch, ignore_errors=True)
+        if not os.environ.get("VERIF_KEEP_SCRATCH"):
+            shutil.rmtree(scratch, ignore_errors=True)
 
     write_evidence(prop, tier, seed, allh, results, violations, inconclusive, known_hits, time.time() - t0,
                    partial=bool(only))
